@@ -50,6 +50,9 @@ pub struct ExecConfig {
     /// ("let time pass").  0 = always prefer polling.
     pub time_pass_den: u32,
     pub step_budget: u64,
+    /// Event kinds that "let time pass" must not fire while a task is runnable (deadlines:
+    /// jumping over them would turn scheduling noise into an injected timeout).
+    pub time_pass_never: &'static [&'static str],
     /// PCT: number of priority change points.
     pub pct_depth: u32,
     /// PCT: change points are drawn in 0..pct_horizon steps.
@@ -63,6 +66,7 @@ impl Default for ExecConfig {
             spurious_den: 0,
             time_pass_den: 0,
             step_budget: 1_000_000,
+            time_pass_never: &[],
             pct_depth: 2,
             pct_horizon: 64,
         }
@@ -323,6 +327,7 @@ impl Exec {
             if have_events
                 && self.cfg.time_pass_den > 0
                 && chance("exec.timepass", 1, self.cfg.time_pass_den)
+                && !ctx::peek_event_kind().map(|k| self.cfg.time_pass_never.contains(&k)).unwrap_or(true)
             {
                 if let Some(k) = self.fire_event() {
                     return Ok(k);
